@@ -45,7 +45,8 @@ LEVEL_TEXT = ("Coq proof over the reals, for every layer count and every state i
               "uptake zero outside min(root depth, groundwater), the Water clamp bounds the uptake by the plant-available water, "
               "ranges of ETREL/TRREL; both models are the Gallina definitions executed at binary64 and compared bit for bit with "
               "hermes.Evatra every run; the property itself is evaluated on the real code on every synthetic case and every "
-              "traced day, the potential ET for all five methods on every traced day.")
+              "traced day, the potential ET for all five methods on every traced day, and the actual ET booked by the Water sub-steps "
+              "(PFTRANS, ETAG, TRAY gains) against the day's potential ET on every traced day.")
 LEVEL_NOTE = ("Transcendental functions are oracle inputs (table of Go's values at the argument bits the model computes). Not proved: "
               "sign and finiteness of stomat's RSTOM, day length facts other than EXT >= 0. Reals axioms of the standard library; "
               "primitive floats; no rounding-error bound between the real and the binary64 semantics (oracle tolerances above).")
@@ -294,6 +295,14 @@ def correspond(ctx):
     ctx.extra["traced_crop_days"] = sum(r_["crop_days"] for r_ in runs)
     ctx.extra["traced_days_skipped(sowing day with Haude file)"] = sum(r_["skipped"] for r_ in runs)
     ctx.extra["cap_step_cases"] = len(caps)
+    for k in ("day_checked", "multi_step_days", "rain_overflow_days", "rain_overflow_fractional_zsr_days",
+              "rain_overflow_zsr_fraction_ge_half_days"):
+        ctx.extra["traced_days:" + k] = sum(r_.get(k, 0) for r_ in runs)
+    shares = [r_["max_booked_share_of_pet"] for r_ in runs if isinstance(r_.get("max_booked_share_of_pet"), (int, float))]
+    ctx.extra["max_booked_actual_ET_share_of_potential_ET"] = max(shares) if shares else None
+    if ctx.extra["traced_days:rain_overflow_zsr_fraction_ge_half_days"] == 0:
+        c.mismatches.append({"kind": "coverage", "what": "no traced day whose sub-step count comes from the rain-overflow branch "
+                             "with a ZSR fraction >= 0.5 (the day-level booked-ET oracle needs them)"})
     hyp = {}
     for r_ in runs:
         for k, v in r_.get("hyp", {}).items():
